@@ -11,19 +11,28 @@ RULE = ("case = (class in {AsyncFIFO, AsyncFIFOBuffered}, width 0..8, requested 
         "write domain reset-less or not, scheduler order, explicit step list over {input writes, level changes of the write "
         "clock, the read clock, or both in the same instant}) generated from clock profiles (alternating, 1:N / N:1 ratios, "
         "random walk, stalls longer than synchroniser+FIFO depth, coincident edges, bursts) and strobe profiles "
-        "(overrun / underrun included); a fair drain tail is appended by the harness. Non-trivial = at least one entry read "
+        "(overrun / underrun included), with long write-domain reset episodes (crash of the writer side) at arbitrary instants in a "
+        "seeded subset of the runs; a fair drain tail is appended by the harness. Non-trivial = at least one entry read "
         "and at least one fault kind fired; distinct = distinct SHA-256 of the per-step observation trace.")
 ASSUMPTIONS = [
     "The Python simulator is the execution model: zero-delay, no metastability or bit skew (Gray coding is not observable).",
     "Inputs change only between clock edges.",
-    "No resets are applied (the statement does not define the queue across a reset).",
+    "Crash of the writer side (a seeded subset of runs, resettable write domains only): the write domain's reset is asserted at "
+    "an arbitrary instant and held over a write-clock edge, then at least 4 read-clock edges, then at least 4 write-clock edges "
+    "(the documentation does not say how long a reset must last; a CDC reset shorter than a few cycles of both clocks is left "
+    "unjudged). From the instant it rises "
+    "the queue is empty (lib.fifo: 'When the write domain reset is asserted, the FIFO becomes empty'), except for the one entry "
+    "AsyncFIFOBuffered may already hold in its output register; nothing is accepted at a write edge while it is asserted. The "
+    "level outputs are not judged from the rise until 4 edges of each clock after the release. A reset released sooner than "
+    "that (possible only in a minimised replay) ends the judged part of the run.",
     "Liveness bound used: after writes stop, 8 + 4*depth full cycles of each clock, alternating, reader draining.",
 ]
 COMPONENTS = {"real": ["amaranth.lib.fifo.AsyncFIFO", "amaranth.lib.fifo.AsyncFIFOBuffered", "amaranth.lib.cdc.FFSynchronizer",
                        "amaranth.lib.cdc.AsyncFFSynchronizer", "amaranth.lib.memory.Memory", "amaranth.hdl elaboration",
                        "amaranth.sim"],
               "stub": ["PermSet scheduler seam", "clock driver (bus wrapper)", "global deque monitor"]}
-EXPECTED_PROBES = ("coincide", "stall", "ratio", "overrun", "underrun", "full", "wrap", "elaborated")
+EXPECTED_PROBES = ("coincide", "stall", "ratio", "overrun", "underrun", "full", "wrap", "elaborated", "reset", "reset_while_holding",
+                   "reset_with_buffered_head")
 
 
 def _toggle_steps(rng, levels, which):
@@ -61,7 +70,25 @@ def gen_case(seed, tier):
     mask = (1 << config["width"]) - 1
     eff_depth = max(1, depth)
     pw, pr = wl.choice([(0.5, 0.5), (0.9, 0.2), (0.2, 0.9), (1.0, 1.0), (0.7, 0.7), (1.0, 0.0), (0.0, 1.0)])
+    p_reset = fl.choice([0, 0, 0.1, 0.3]) if not config["w_reset_less"] else 0
     while len(steps) < nsteps:
+        if p_reset and steps and fl.random() < p_reset:
+            # crash of the writer side: the write domain's reset, asserted at an arbitrary instant, held while both clocks
+            # keep running (long enough for both sides to settle: a write edge, then >= 4 read edges, then >= 4 write edges), released
+            steps.append({"k": "rst", "l": 1})
+            for _ in range(fl.randint(0, 16)):
+                if wl.random() < 0.4:
+                    counter += 1
+                    steps.append({"k": "set", "v": {"w_en": int(wl.random() < pw), "w_data": counter & mask,
+                                                   "r_en": int(wl.random() < pr)}})
+                r = wl.random()
+                steps.append(_toggle_steps(wl, levels, ["write", "read"] if r < 0.3 else (["write"] if r < 0.65 else ["read"])))
+            for name, cnt in (("write", 2), ("read", 8 + fl.choice([0, 0, 1, 3])), ("write", 8 + fl.choice([0, 0, 1]))):
+                for _ in range(cnt):
+                    steps.append(_toggle_steps(wl, levels, [name]))
+            for _ in range(fl.choice([0, 0, 2, 5])):
+                steps.append(_toggle_steps(wl, levels, [wl.choice(["write", "read"])]))
+            steps.append({"k": "rst", "l": 0})
         prof = fl.choice(enabled)
         length = wl.randint(4, 40)
         if wl.random() < 0.25:
@@ -96,6 +123,10 @@ def gen_case(seed, tier):
                                         "seed": sc.randrange(1 << 32)}, "steps": steps, "reuse": fl.random() < 0.15}
 
 
+class StopJudging(Exception):
+    pass
+
+
 def build(config):
     from amaranth.lib import fifo
     cls = getattr(fifo, config["cls"])
@@ -120,6 +151,8 @@ def run_case(case):
     def body(drv):
         stats["probes"]["elaborated"] += 1
         dq = deque()
+        R = {"rst": 0, "window": False, "reads_since": 0, "post_r": 0, "post_w": 0}
+        buffered = config["cls"] == "AsyncFIFOBuffered"
         inp = {"w_en": 0, "w_data": 0, "r_en": 0}
         sigs = {"w_en": dut.w_en, "w_data": dut.w_data, "r_en": dut.r_en}
         lv = {"write": 0, "read": 0}
@@ -141,13 +174,33 @@ def run_case(case):
                     raise Violation("r_data_not_oldest", step, {"r_data": r_data, "expected": dq[0], "held": held})
             if w_rdy and held >= depth:
                 raise Violation("w_rdy_when_full", step, {"held": held, "depth": depth})
-            if not (0 <= r_level <= depth and 0 <= w_level <= depth):
+            if not R["window"] and not (0 <= r_level <= depth and 0 <= w_level <= depth):
                 raise Violation("level_out_of_range", step, {"r_level": r_level, "w_level": w_level, "depth": depth})
 
         def do_step(i, st, obs):
             nonlocal accepted, sets_since_edge
             stats["steps"] += 1
-            if st["k"] == "set":
+            if st["k"] == "rst":
+                if config["w_reset_less"] or st["l"] == R["rst"]:
+                    pass
+                elif st["l"]:
+                    R["rst"], R["window"], R["reads_since"] = 1, True, 0
+                    stats["faults"]["reset"] = stats["faults"].get("reset", 0) + 1
+                    if dq:
+                        stats["probes"]["reset_while_holding"] = stats["probes"].get("reset_while_holding", 0) + 1
+                    head = dq[0] if (dq and buffered and obs[1]) else None
+                    dq.clear()
+                    if head is not None:
+                        dq.append(head)
+                        stats["probes"]["reset_with_buffered_head"] = stats["probes"].get("reset_with_buffered_head", 0) + 1
+                    drv.drive({"write.rst": 1})
+                else:
+                    if R["reads_since"] < 9:
+                        stats["probes"]["short_reset_unjudged"] = stats["probes"].get("short_reset_unjudged", 0) + 1
+                        raise StopJudging()
+                    R["rst"], R["post_r"], R["post_w"] = 0, 0, 0
+                    drv.drive({"write.rst": 0})
+            elif st["k"] == "set":
                 for name, val in st["v"].items():
                     if inp[name] != val:
                         inp[name] = val
@@ -188,6 +241,22 @@ def run_case(case):
                     sets_since_edge = 0
                 if w_edge and r_edge and inp["w_en"] and w_rdy and inp["r_en"] and r_rdy:
                     stats["probes"]["coincident_rw"] += 1
+                if R["rst"]:
+                    # hold requirement: phase 0 -> (write edge) -> 1..4 -> (4 read edges) -> 5..8 -> (4 write edges) -> 9 = held long enough
+                    ph = R["reads_since"]
+                    if ph == 0:
+                        ph = 1 if w_edge else 0
+                    else:
+                        if 1 <= ph <= 4 and r_edge:
+                            ph += 1
+                        if 5 <= ph <= 8 and w_edge:
+                            ph += 1
+                    R["reads_since"] = ph
+                elif R["window"]:
+                    R["post_r"] += int(r_edge)
+                    R["post_w"] += int(w_edge)
+                    if R["post_r"] >= 4 and R["post_w"] >= 4:
+                        R["window"] = False
                 if r_edge:
                     if inp["r_en"] and r_rdy:
                         if not dq:
@@ -196,7 +265,9 @@ def run_case(case):
                         stats["probes"]["reads"] += 1
                     elif inp["r_en"]:
                         stats["faults"]["underrun"] += 1
-                if w_edge:
+                if w_edge and R["rst"]:
+                    pass        # nothing is accepted while the write domain is held in reset
+                elif w_edge:
                     if inp["w_en"] and w_rdy:
                         if held >= depth:
                             raise Violation("accept_when_full", i, {"held": held, "depth": depth})
@@ -217,9 +288,14 @@ def run_case(case):
         obs = observe()
         invariants(-1, obs)
         n = len(case["steps"])
-        for i, st in enumerate(case["steps"]):
-            drv.begin_step(i)
-            obs = do_step(i, st, obs)
+        try:
+            for i, st in enumerate(case["steps"]):
+                drv.begin_step(i)
+                obs = do_step(i, st, obs)
+        except StopJudging:
+            return
+        if R["rst"]:
+            return      # (only in a minimised replay: the reset is never released)
         # fair tail: writes stop, reader drains, clocks alternate
         if depth > 0:
             tail = [{"k": "set", "v": {"w_en": 0, "r_en": 1}}]
